@@ -934,6 +934,7 @@ def shards(tier, seed):
     out.append({"kind": "derived", "off": 0})
     out.append({"kind": "derived", "off": off})
     out.append({"kind": "precedence", "off": 0})
+    out.append({"kind": "boundary", "off": 0})
     out.append({"kind": "orient", "what": "order", "off": off})
     out.append({"kind": "orient", "what": "boxrows", "off": off})
     for r in (range(24) if tier == "thorough" else [(5 * seed + k) % 24 for k in (1, 10, 19)]):
@@ -941,7 +942,7 @@ def shards(tier, seed):
     out.append({"kind": "edge", "off": off})
     # heavy shards first
     weight = {"st": 0, "pst": 0, "ms": 1, "pms": 1, "sel": 2, "assign": 3, "misc": 3, "cap": 0, "reuse": 2, "alias": 2,
-              "flavour": 2, "orient": 2, "edge": 3, "flavour_pairs": 2, "derived": 2, "precedence": 2}
+              "flavour": 2, "orient": 2, "edge": 3, "flavour_pairs": 2, "derived": 2, "precedence": 2, "boundary": 2}
     out.sort(key=lambda s: weight[s["kind"]])
     return out
 
@@ -1711,6 +1712,107 @@ def run_precedence(shard, ctx):
     del struc
 
 
+def _boundary_probe(args):
+    """forked child: non-finite / extreme values of the quantities that are compared"""
+    import biotite.structure as struc
+
+    what, val = args
+    coords = np.array([[0, 0, 0], [0.5, 0, 0], [2, 2, 2], [2, 2, 2]], dtype=np.float32)
+    q = np.array([[0.0, 0, 0], [2, 2, 2]])
+    try:
+        if what == "cell_size":
+            cl = struc.CellList(coords, val)
+            return ("ok", cl.get_atoms(q, 0.5, as_mask=True).tolist())
+        cl = struc.CellList(coords, 1.0)
+        if what == "radius":
+            return ("ok", cl.get_atoms(q, val, as_mask=True).tolist())
+        if what == "radius_in_array":
+            return ("ok", cl.get_atoms(q, np.array([0.5, val]), as_mask=True).tolist())
+        if what == "threshold":
+            return ("ok", cl.create_adjacency_matrix(val).tolist())
+        if what == "cell_radius":
+            return ("ok", cl.get_atoms_in_cells(q, val, as_mask=True).tolist())
+    except Exception as e:  # noqa: BLE001
+        return ("exc", type(e).__name__)
+    return ("exc", "unknown probe")
+
+
+def run_boundary(shard, ctx):
+    """third audit, I: boundary values of the compared quantities that the lattice alphabet lacks - NaN / inf / huge / tiny
+    radius, threshold, cell size (class EITHER: a clean exception or the brute-force value: NaN matches nothing, inf matches
+    every stored atom; a dead process or another answer is a violation); G: numpy error state and the warnings filter as
+    ambient state (finite queries: identical answers)"""
+    import warnings
+
+    import biotite.structure as struc
+
+    big, nan, inf = 1e30, float("nan"), float("inf")
+    all_q = [[True, True, False, False], [False, False, True, True]]        # radius 0.5 around the two query points
+    every = [[True] * 4, [True] * 4]
+    adj_all = [[True] * 4] * 4
+    probes = [("cell_size", nan, None), ("cell_size", inf, None), ("cell_size", big, all_q), ("cell_size", 1e-30, None),
+              ("cell_size", 5e-4, all_q),
+              # non-finite radii / thresholds: statement silent -> any well-formed answer or exception, only a dead process
+              # counts (observed: scalar inf -> OverflowError, inf inside a radius array -> silently no atoms)
+              ("radius", nan, None), ("radius", inf, None), ("radius", big, every),
+              ("radius", 1e-30, [[True, False, False, False], [False, False, True, True]]),
+              ("radius_in_array", nan, None), ("radius_in_array", inf, None), ("radius_in_array", 1e-30, [all_q[0], [False, False, True, True]]),
+              ("threshold", nan, None), ("threshold", inf, None), ("threshold", big, adj_all),
+              ("cell_radius", 10 ** 6, every)]
+    for what, val, model in probes:
+        case = {"kind": "boundary", "probe": [what, repr(val)]}
+        if not ctx.journal(case):
+            continue
+        ctx.ev(1, 1)
+        ctx.count("unspecified")
+        r = ctx.isolated(_boundary_probe, (what, val), timeout=120)
+        ctx.outcome(("boundary", what, repr(val), str(r)[:80]))
+        cls = "%s_%s" % (what, "nan" if val != val else "inf" if val == inf else "huge" if val >= 1e6 else "tiny")
+        if r[0] in ("signal", "timeout", "exit"):
+            ctx.violation("CellList|process_%s|%s" % (r[0], cls), "an extreme %s terminated the process (%r)" % (what, r), case,
+                          expected="exception or exact answer", observed=list(r))
+        elif r[0] == "exc" or r[1][0] == "exc":
+            ctx.count("unspecified_refused")
+        elif model is not None and r[1][1] != model:
+            ctx.violation("CellList|wrong_result|%s" % cls, "an extreme %s gave an answer that brute force does not give" % what,
+                          case, expected=model, observed=r[1][1])
+    # G: ambient numpy error state / warnings filter; finite query rows only (non-finite queries are allowed to warn)
+    for name, bname in (("sparse", None), ("border", "o3"), ("sparse", "t1")):
+        cfg = {"set": ["st", name], "cs": 1.0, "off": shard["off"]}
+        if bname:
+            cfg["box"] = bname
+        tag = cfg_tag(cfg)
+        if not ctx.journal(tag + "#build"):
+            continue
+        finite = list(range(len(EXTRA_Q), len(EXTRA_Q) + 60))
+        ops = [{"m": "get", "q": "mini", "rows": finite, "r": 1.0}, {"m": "get", "q": "mini", "rows": finite, "r": ["cyc", [0.0, 1.5, 5.0], 0], "mask": True},
+               {"m": "cells", "q": "mini", "rows": finite, "r": 2}, {"m": "adj", "r": 1.5},
+               {"m": "get", "q": "mini", "rows": finite[:6], "r": 2.0, "single": True}]
+        for amb in ("errstate_raise", "warnings_error"):
+            try:
+                if amb == "errstate_raise":
+                    with np.errstate(all="raise"):
+                        cl, coords, msel, box = build_celllist(cfg)
+                        orc = Oracle(cfg, coords, msel, box)
+                        for op in ops:
+                            with np.errstate(all="ignore"):
+                                orc.queries(op["q"]) if op["m"] != "adj" else None      # the oracle's own arithmetic
+                            run_op(ctx, cfg, cl, orc, dict(op, ambient=amb))
+                else:
+                    with warnings.catch_warnings():
+                        warnings.simplefilter("error")
+                        with np.errstate(all="warn"):
+                            cl, coords, msel, box = build_celllist(cfg)
+                            orc = Oracle(cfg, coords, msel, box)
+                            for op in ops:
+                                run_op(ctx, cfg, cl, orc, dict(op, ambient=amb))
+            except (FloatingPointError, Warning) as e:
+                ctx.violation("CellList|raises_%s|ambient_%s" % (type(e).__name__, amb),
+                              "finite input fails when the caller has set %s: %s" % (amb, str(e)[:150]),
+                              {"kind": "boundary", "cfg": cfg, "ambient": amb}, expected="same answers", observed=type(e).__name__)
+    del struc
+
+
 def run_orient(shard, ctx):
     """the answer sets do not depend on the order of the atoms, on which rows of the box carry which lattice vector,
     or on a rigid rotation of atoms + box + queries (all 24 cube rotations keep the lattice dyadic)"""
@@ -1782,6 +1884,17 @@ def run_edge(shard, ctx):
         ("coord_nan", lambda: struc.CellList(np.array([[0, 0, np.nan], [1, 1, 1]], dtype=np.float32), 1.0)),
         ("selection_too_short", lambda: struc.CellList(np.zeros((4, 3), dtype=np.float32), 1.0,
                                                        selection=np.ones(3, dtype=bool))),
+        # F: the second operand is LARGER than the first
+        ("selection_too_long", lambda: struc.CellList(np.zeros((4, 3), dtype=np.float32), 1.0,
+                                                      selection=np.ones(5, dtype=bool))),
+        ("selection_much_too_long", lambda: struc.CellList(np.zeros((4, 3), dtype=np.float32), 1.0,
+                                                           selection=np.ones(4000, dtype=bool))),
+        ("more_radii_than_queries", lambda: struc.CellList(np.zeros((4, 3), dtype=np.float32), 1.0).get_atoms(
+            np.zeros((2, 3)), np.array([1.0, 1.0, 1.0]))),
+        ("more_cell_radii_than_queries", lambda: struc.CellList(np.zeros((4, 3), dtype=np.float32), 1.0).get_atoms_in_cells(
+            np.zeros((2, 3)), np.array([1, 1, 1, 1, 1]))),
+        ("radii_for_single_query", lambda: struc.CellList(np.zeros((4, 3), dtype=np.float32), 1.0).get_atoms(
+            np.zeros(3), np.array([1.0]))),
         ("periodic_without_box", lambda: struc.CellList(np.zeros((4, 3), dtype=np.float32), 1.0, periodic=True)),
         ("box_nan", lambda: struc.CellList(np.zeros((4, 3), dtype=np.float32), 1.0, periodic=True,
                                            box=np.full((3, 3), np.nan))),
@@ -1799,7 +1912,7 @@ def run_edge(shard, ctx):
             pass
 
 
-AUDIT_RUNNERS = {"precedence": run_precedence, "flavour_pairs": run_flavour_pairs, "derived": run_derived, "cap": run_cap, "reuse": run_reuse, "alias": run_alias, "flavour": run_flavour, "orient": run_orient,
+AUDIT_RUNNERS = {"boundary": run_boundary, "precedence": run_precedence, "flavour_pairs": run_flavour_pairs, "derived": run_derived, "cap": run_cap, "reuse": run_reuse, "alias": run_alias, "flavour": run_flavour, "orient": run_orient,
                  "edge": run_edge}
 
 
@@ -1817,6 +1930,8 @@ def crash_class(case):
                 return "overflow|" + "|".join(str(x) for x in cfg["probe"])
             if cfg.get("kind") == "derived":
                 return "derived|%s" % cfg.get("coords")
+            if cfg.get("kind") == "boundary":
+                return "boundary|%s" % "|".join(str(x) for x in cfg.get("probe", []))
             known = ("build", "assign", "either_build", "reuse", "alias", "alias_after_mutation", "flav", "edge")
             what = b if b in known else SITE.get(json.loads(b)["m"], "?")
             return "%s|%s" % (what, build_class(cfg))
@@ -1829,7 +1944,7 @@ def replay(case, ctx):
     if isinstance(case, str):
         a, _, b = case.partition("#")
         cfg = json.loads(a)
-        if cfg.get("kind") in ("overflow", "derived"):
+        if cfg.get("kind") in ("overflow", "derived", "boundary"):
             case = cfg
         elif "misc" in cfg:
             case = {"kind": "misc", "what": str(cfg["misc"]).replace("edge_", ""), "off": 0}
@@ -1843,7 +1958,8 @@ def replay(case, ctx):
             case = {"kind": "op", "cfg": cfg, "op": json.loads(b)}
     if case["kind"] == "misc":
         if str(case.get("what", "")) in ("empty_coord", "coord_n2", "coord_1d", "coord_nan", "selection_too_short",
-                                         "periodic_without_box", "box_nan"):
+                                         "periodic_without_box", "box_nan", "selection_too_long", "selection_much_too_long",
+                                         "more_radii_than_queries", "more_cell_radii_than_queries", "radii_for_single_query"):
             run_edge({"off": case.get("off", 0)}, ctx)
         else:
             run_misc({"off": case.get("off", 0)}, ctx)
@@ -1851,6 +1967,10 @@ def replay(case, ctx):
     if case["kind"] == "reuse":
         with np.errstate(invalid="ignore", over="ignore"):
             run_reuse_cfg(ctx, case["cfg"])
+        return
+    if case["kind"] == "boundary":
+        with np.errstate(invalid="ignore", over="ignore"):
+            run_boundary({"off": 0}, ctx)
         return
     if case["kind"] == "derived":
         with np.errstate(invalid="ignore", over="ignore"):
